@@ -192,7 +192,7 @@ class Check(Property):
     def reexpress(self, u, q, rng, offset_ok=False):
         """the same physical quantity in other compatible units (exact); offset temperature scales are
         alternatives only for the operations whose offset calculus is defined for a lone temperature
-        (+, -, ordering, == between quantities): abs, %, //, * and comparison with a bare number are not
+        (ordering, == between quantities): abs, %, //, * and comparison with a bare number are not
         functions of the physical value on an offset scale (that calculus is C06's subject)"""
         P = regs.pools()
         tgt = {}
@@ -246,7 +246,7 @@ class Check(Property):
             v.append(f"{tag}: an operand was modified by the plain form")
         # covariance
         try:
-            off = f in ("add", "sub", "lt", "le", "gt", "ge", "eq") and hasattr(b, "_units")
+            off = f in ("lt", "le", "gt", "ge", "eq") and hasattr(b, "_units")     # + and - of an absolute offset temperature and another absolute one are refused (C06)
             a2 = self.reexpress(u, a, rng, off)
             b2 = self.reexpress(u, b, rng, off) if hasattr(b, "_units") else b
         except Exception as exc:  # noqa: BLE001
